@@ -55,6 +55,14 @@ def stepC06 : Step
       let (r, b, i) := Spec.TreeHash.blockSpec K hdrB minerB hs
       some (m, s!"ok {Hex.encode r} {Hex.encode b} {Hex.encode i}")
     | none => some ("err", "err")
+  | ["c06_cnt", n] =>
+    match n.toNat? with
+    | some k =>
+      let m := match TreeHash.treeHashCnt k with | some c => s!"ok {c}" | none => "panic"
+      -- by the book: defined for 3 ≤ n ≤ 2^28 as the largest power of two strictly below n
+      let sp := if k < 3 ∨ 2^28 < k then "panic" else s!"ok {2 ^ Nat.log2 (k - 1)}"
+      some (m, sp)
+    | none => none
   | ["c06_blob", hdr, root, n] =>
     match n.toNat? with
     | some k => some (Hex.encode (TreeHash.blobOf (Hex.decode hdr) (Hex.decode root) k),
